@@ -47,11 +47,13 @@ impl FileSystem for PhysicalFS {
         let fs_path = self.get_path(path);
         std::fs::create_dir(&fs_path).map_err(|err| match err.kind() {
             ErrorKind::AlreadyExists => {
-                let metadata = std::fs::metadata(&fs_path).unwrap();
-                if metadata.is_dir() {
-                    return VfsError::from(VfsErrorKind::DirectoryExists);
+                match std::fs::metadata(&fs_path) {
+                    Ok(metadata) if metadata.is_dir() => {
+                        VfsError::from(VfsErrorKind::DirectoryExists)
+                    }
+                    // also covers an occupant that cannot be inspected, e.g. a dangling symlink
+                    _ => VfsError::from(VfsErrorKind::FileExists),
                 }
-                VfsError::from(VfsErrorKind::FileExists)
             }
             _ => err.into(),
         })?;
